@@ -3,11 +3,12 @@
 # (plain and -race variants of the instrumented harness).
 export GOFLAGS=-mod=mod GOPROXY=off GOSUMDB=off GOTOOLCHAIN=local
 set -e
+ROOT=$(cd "$(dirname "$0")/.." && pwd)
 scratch=$(mktemp -d /tmp/verif-setup-XXXXXX)
 trap 'rm -rf "$scratch"' EXIT
-( cd /verif/tools/vgen && go build -o "$scratch/vgen" . )
+( cd "$ROOT/tools/vgen" && go build -o "$scratch/vgen" . )
 mkdir -p "$scratch/gen"
-"$scratch/vgen" -out "$scratch/gen"
-( cd /verif/harness && go build -overlay "$scratch/gen/overlay.json" -tags verif -o "$scratch/vcheck.bin" ./cmd/vcheck )
-( cd /verif/harness && go build -race -overlay "$scratch/gen/overlay.json" -tags verif -o "$scratch/vcheck-race.bin" ./cmd/vcheck )
+"$scratch/vgen" -harness "$ROOT/harness" -hooks "$ROOT/hooks" -out "$scratch/gen"
+( cd "$ROOT/harness" && go build -overlay "$scratch/gen/overlay.json" -tags verif -o "$scratch/vcheck.bin" ./cmd/vcheck )
+( cd "$ROOT/harness" && go build -race -overlay "$scratch/gen/overlay.json" -tags verif -o "$scratch/vcheck-race.bin" ./cmd/vcheck )
 echo "setup ok"
